@@ -55,7 +55,7 @@ func init() {
 		ID: "C17",
 		Rule: "Case list = 44 typed blocks + N list blocks of 100 lists (quick N=1 500, thorough N=100 000). " +
 			"List: 1..8 messages, type from {0..9,45,128,136,137,144,254,255,256,509,510,511,1000,70000} or random <300, size from {0,1,2,3,7,8,9,15,16,17,24,254,255,256,509,510,511} or random <40 (2.5% of lists: up to 5000), " +
-			"payload bytes from {00,01,02,03,04,5a,80,ff} (all-zero / all-ff / random variants, zero or 0x80 endings); two thirds of the messages of a typed type (1,4,5,136,137,144) carry content valid for that type (typed library values built from the reference description, CEA-608 cc_data, >=8/>=16 byte user data, HEVC pic_timing for the SPS), the rest arbitrary bytes incl. too short ones. " +
+			"payload bytes from {00,01,02,03,04,5a,80,ff} (all-zero / all-ff / random variants, zero or 0x80 endings, and zero-free bodies with alphabet bytes only in the first and last three positions - half of the payloads of 254 bytes and more - so that escapes arise only across message boundaries); two thirds of the messages of a typed type (1,4,5,136,137,144) carry content valid for that type (typed library values built from the reference description, CEA-608 cc_data, >=8/>=16 byte user data, HEVC pic_timing for the SPS), the rest arbitrary bytes incl. too short ones. " +
 			"Each list: WriteSEIMessages -> bytes compared with the reference framing (ff-run type/size, payload, 0x80, reference escaper) -> ExtractSEIData and avc/hevc ParseSEINalu (SPS nil / without VUI / VUI / NAL,VCL,both HRD; HEVC VUI with every reachable pic_timing parameter combination) read the reference stream. " +
 			"Typed blocks: TimeCodeSEI for 0..3 clocks and PicTimingAvcSEI for pict_struct 0..8 with and without CbpDbpDelay: one focus clock runs through all 41 flag shapes (absent; units x discontinuity x cnt_dropped x {full, none, S, SM, SMH}) x time_offset_length 0..31 x value classes {zero, one, max, random, escape-like}, other clocks random, canonical form (non-coded fields zero); " +
 			"137/144 boundary and random values; pass-through: general (both codecs), registered, CEA-608, unregistered, HEVC pic_timing for all 16 external flag combinations with valid and arbitrary payloads. " +
